@@ -43,6 +43,37 @@ ROLES = {"hash_sdm_type": "sdm", "hash_sdm_type_owned": "sdm", "hash_struct": "s
          "hash_named_field": "field", "hash_update": "update", "hash_update_str": "update_str"}
 
 
+SUBJECT_ROLE = {"schema::DataModelType": "sdm", "schema::owned::OwnedDataModelType": "sdm", "schema::Data": "struct", "schema::owned::OwnedData": "struct",
+                "schema::Variant": "variant", "schema::owned::OwnedVariant": "variant", "schema::NamedField": "field", "schema::owned::OwnedNamedField": "field"}
+
+
+def role_of(f):
+    """(role, owned?, index of the subject parameter) of a hasher function, from its signature: fn(u64 state, .., &Subject) -> u64"""
+    if f.argc < 2 or f.locals[0]["ty"] != "u64" or f.locals[1]["ty"] != "u64":
+        return None
+    for i in range(2, f.argc + 1):
+        t = f.locals[i]["ty"].lstrip("&").strip()
+        t = t.split(" ", 1)[-1] if t.startswith("'") else t
+        if t in SUBJECT_ROLE:
+            return SUBJECT_ROLE[t], "owned::" in t, i
+    if f.argc == 2 and f.locals[2]["ty"].replace("'_ ", "") in ("&[u8]",):
+        return "update", False, 2
+    if f.argc == 2 and f.locals[2]["ty"].replace("'_ ", "") in ("&str",):
+        return "update_str", False, 2
+    return None
+
+
+def hash_roles(sc):
+    """{canon: (role, owned, subject index)} of all functions of the key::hash module that take and return the running state"""
+    out = {}
+    for f in sc.fns:
+        if "::key::hash::" in f.canon and "{closure" not in f.canon:
+            r = role_of(f)
+            if r:
+                out[f.canon] = r
+    return out
+
+
 def field_path(t):
     """normalised access path of a term relative to the hashed node: ('Variant','field','[i]') ; derefs/boxes dropped"""
     t = norm(t)
@@ -105,8 +136,11 @@ def events_of(F, fn, p, local_roles):
     for e in tbl.residual_calls(p):
         nm = e["name"]
         c = e["callee"]
-        if c and c["krate"] == "postcard_schema" and nm in local_roles:
-            role = local_roles[nm]
+        rc = None
+        if c and c["krate"] == "postcard_schema":
+            rc = local_roles.get(c.get("canon")) or local_roles.get((c.get("resolved") or {}).get("canon"))
+        if rc is not None:
+            role = rc[0]
             if norm(e["args"][0]) != norm(state):
                 threaded = False
             state = e["result"]
@@ -126,7 +160,9 @@ def events_of(F, fn, p, local_roles):
             elif role == "update_str":
                 evs.append(("Name", field_path(e["args"][1])[1:]))
             else:
-                extra = tuple(field_path(a)[1:] for a in e["args"][1:])
+                # the subject (and only the subject) identifies what is hashed next; unused extra arguments (a bound-but-unhashed
+                # type name) are not part of the stream
+                extra = (field_path(e["args"][rc[2] - 1])[1:],)
                 evs.append(("Rec", role, extra))
         elif nm in ("as_bytes", "len", "deref", "index", "as_ref"):
             continue
@@ -138,9 +174,11 @@ def events_of(F, fn, p, local_roles):
     return evs, threaded and ret_ok
 
 
-def arms_of(F, fn, adt_variants, subject_arg):
+def arms_of(F, fn, adt_variants, subject_arg, roles=None):
     """-> {variant name: sorted list of event tuples over the explored iteration counts}"""
-    eng = sym.Engine(F, max_visits=3)
+    roles = roles or {}
+    # private helpers (loops over children, patch helpers) are analysed in place; the role functions themselves stay calls
+    eng = sym.Engine(F, max_visits=3, max_depth=10, inline=lambda f, ev: f.crate == "postcard_schema" and "::key::hash::" in f.canon and f.canon not in roles)
     arms = {}
     bad = []
     for p in eng.run(fn):
@@ -155,7 +193,7 @@ def arms_of(F, fn, adt_variants, subject_arg):
                 if fp and fp[0] == "arg%d" % subject_arg[0] and tuple(fp[1:]) == subject_arg[1]:
                     k = v
         name = adt_variants[k] if (k is not None and k < len(adt_variants)) else "*"
-        evs, ok = events_of(F, fn, p, ROLES)
+        evs, ok = events_of(F, fn, p, roles)
         if not ok:
             bad.append("arm %s: the running hash state is not threaded through every update / returned" % name)
         arms.setdefault(name, set()).add((p.status, tuple(evs)))
@@ -177,36 +215,36 @@ def strip_variant_prefix(arms):
 
 
 def run(run_, ctx):
+    import summ2
     F = ctx.facts("A")
     sc = F.crate("postcard_schema")
     run_.configs.append("A")
     run_.bodies += len(sc.fns)
+    roles = hash_roles(sc)
 
-    def fn(path):
-        f = F.fn_by_canon("postcard_schema::key::hash::" + path)
-        if f is None:
-            run_.bad("ANCHOR", path, "hasher function not found")
-        return f
+    def by_role(role, owned):
+        fs = [F.fn_by_canon(cn) for cn, r in roles.items() if r[0] == role and r[1] == owned]
+        if len(fs) != 1:
+            run_.bad("ANCHOR", "%s hasher (%s)" % (role, "owned" if owned else "const"), "expected exactly one function with this signature, found %d" % len(fs))
+            return None
+        return fs[0]
     dmt = [v["name"] for v in sc.adts["postcard_schema::schema::DataModelType"]["variants"]]
     dat = [v["name"] for v in sc.adts["postcard_schema::schema::Data"]["variants"]]
     odmt = [v["name"] for v in sc.adts["postcard_schema::schema::owned::OwnedDataModelType"]["variants"]]
     odat = [v["name"] for v in sc.adts["postcard_schema::schema::owned::OwnedData"]["variants"]]
-    pairs = [
-        ("sdm", "fnv1a64::hash_sdm_type", "fnv1a64_owned::hash_sdm_type_owned", dmt, odmt, (2, ())),
-        ("struct", "fnv1a64::hash_struct", "fnv1a64_owned::hash_struct", dat, odat, (3, ())),
-        ("variant", "fnv1a64::hash_variant", "fnv1a64_owned::hash_variant", dat, odat, (2, ("data",))),
-        ("field", "fnv1a64::hash_named_field", "fnv1a64_owned::hash_named_field", ["*"], ["*"], (2, ("?",))),
-    ]
+    pairs = [("sdm", dmt, odmt, ()), ("struct", dat, odat, ()), ("variant", dat, odat, ("data",)), ("field", ["*"], ["*"], ("?",))]
     ntags = 0
-    for role, pc_, po_, vb, vo, subj in pairs:
-        fb, fo = fn(pc_), fn(po_)
+    const_arms = {}
+    for role, vb, vo, sub in pairs:
+        fb, fo = by_role(role, False), by_role(role, True)
         if not fb or not fo:
             continue
-        ab, badb = arms_of(F, fb, vb, subj)
-        ao, bado = arms_of(F, fo, vo, subj)
+        ab, badb = arms_of(F, fb, vb, (roles[fb.canon][2], sub), roles)
+        ao, bado = arms_of(F, fo, vo, (roles[fo.canon][2], sub), roles)
         for b in badb + bado:
             run_.bad("H", "%s threading" % role, b, fb.where())
         ab, ao = strip_variant_prefix(ab), strip_variant_prefix(ao)
+        const_arms[role] = (fb, ab)
         for name in sorted(set(ab) | set(ao)):
             key = "%s::%s" % (role, name)
             x, y = ab.get(name), ao.get(name)
@@ -218,7 +256,6 @@ def run(run_, ctx):
                        detail="same tag/name/recursion stream in both hashers")
             # T: tag + order discipline on the const copy (the owned one is equal by H)
             if role in TAGS:
-                first = x[0][1]
                 want = TAGS[role].get(name)
                 if role == "sdm" and name == "Struct":
                     okt = all(evs and evs[0][0] == "Rec" and evs[0][1] == "struct" for st, evs in x)
@@ -226,6 +263,7 @@ def run(run_, ctx):
                                detail="delegates to the struct-data hasher; type name unused")
                     continue
                 tag_first = role != "variant"
+                probs = []
                 for st, evs in x:
                     tags = [e for e in evs if e[0] == "Tag"]
                     probs = []
@@ -243,76 +281,97 @@ def run(run_, ctx):
                         break
                 ntags += 1
                 run_.check(not probs, "T", key, probs[0] if probs else "tag 0x%02X, tag-then-children in order" % want, fb.where(), found=probs)
-    # children in declaration order for the multi-child arms
     run_.floor("H", 33)
     run_.floor("T", 33)
     # distinctness
     allt = [v for r in TAGS.values() for v in r.values()]
     run_.check(len(set(allt)) == len(allt) == 33, "T", "tags pairwise distinct", "published tag table has duplicates")
     # Map key-then-val, named field name-then-type (read off the const copy)
-    fb = fn("fnv1a64::hash_sdm_type")
-    if fb:
-        ab, _ = arms_of(F, fb, dmt, (2, ()))
-        ab = strip_variant_prefix(ab)
+    if "sdm" in const_arms:
+        fb, ab = const_arms["sdm"]
         mp = ab.get("Map", [])
         okm = mp and all([e for e in evs if e[0] == "Rec"] == [("Rec", "sdm", (("key",),)), ("Rec", "sdm", (("val",),))] for st, evs in mp)
         run_.check(bool(okm), "T", "sdm::Map child order", "a map must hash its key schema before its value schema", fb.where(), found=[repr(x) for x in mp])
-    fb = fn("fnv1a64::hash_named_field")
-    if fb:
-        ab, _ = arms_of(F, fb, ["*"], (2, ("?",)))
+    if "field" in const_arms:
+        fb, ab = const_arms["field"]
         nf = list(ab.values())[0] if ab else []
         okn = nf and all(list(evs) == [("Name", ("name",)), ("Rec", "sdm", (("ty",),))] for st, evs in nf)
         run_.check(bool(okn), "T", "field name-then-type", "a named field must hash its name and then its type", fb.where(), found=[repr(x) for x in nf])
-    # ---- F / P: summaries ---------------------------------------------------------------------------------------
-    WANT = {
-        "fnv1a64::hash_update": [
-            "if len(arg2) <= 0: - => arg1",
-            "if 0 < len(arg2) && len(arg2) <= 1: #1 = core::num::<impl u64>::wrapping_mul(BitXor(arg1, (*arg2[0] as u64)), 1099511628211) => #1",
-            "if 0 < len(arg2) && 1 < len(arg2): #1 = core::num::<impl u64>::wrapping_mul(BitXor(arg1, (*arg2[0] as u64)), 1099511628211); #2 = core::num::<impl u64>::wrapping_mul(BitXor(#1, (*arg2[1] as u64)), 1099511628211) => None [cut]",
-        ],
-        "fnv1a64::hash_update_str": ["if always: #1 = core::str::<impl str>::as_bytes(arg2); #2 = key::hash::fnv1a64::hash_update(arg1, #1) => #2"],
-        "fnv1a64::hash_ty_path": [
-            "if always: #1 = key::hash::fnv1a64::hash_update_str(%d, arg1); #2 = key::hash::fnv1a64::hash_sdm_type(#1, constref('postcard_schema::Schema::SCHEMA', T(), 'SCHEMA')) => %s" % (BASIS, le8("#2"))],
-        "fnv1a64_owned::hash_ty_path_owned": [
-            "if always: #1 = key::hash::fnv1a64::hash_update_str(%d, arg1); #2 = key::hash::fnv1a64_owned::hash_sdm_type_owned(#1, arg2) => %s" % (BASIS, le8("#2"))],
-    }
-    for path, want in WANT.items():
-        f = fn(path)
-        if f:
-            ls = summ.lines(summ.summarize(F, f))
-            run_.check(sorted(ls) == sorted(want), "F", path, "FNV-1a / plumbing function differs from the documented algorithm", f.where(), expected=want, found=ls,
-                       detail="as documented")
-    f = fn("{impl#0}::update")
-    if f:
-        ls = summ.lines(summ.summarize(F, f))
-        okb = any("*self.state := BitXor(*self.state, #3)" in l and "wrapping_mul(BitXor(*self.state, #3), %d)" % PRIME in l and "<u64 as From>::from(*someval(#2))" in l for l in ls)
-        run_.check(okb, "F", "Fnv1a64Hasher::update", "streaming hasher does not xor the byte in and then multiply by the FNV prime", f.where(), found=ls[:2])
-    f = fn("{impl#0}::new")
-    if f:
-        ls = summ.lines(summ.summarize(F, f))
-        run_.check(ls == ["if always: - => Fnv1a64Hasher{state: %d}" % BASIS], "F", "Fnv1a64Hasher::new", "wrong offset basis", f.where(), found=ls)
-    # Key constructors
-    for canon, want in (("postcard_schema::key::{impl#2}::for_path", "key::hash::fnv1a64::hash_ty_path(arg1)"),
-                        ("postcard_schema::key::key_owned::{impl#0}::for_owned_schema_path", "key::hash::fnv1a64_owned::hash_ty_path_owned(arg1, arg2)")):
-        f = F.fn_by_canon(canon)
-        if f is None:
-            fs = [x for x in sc.fns if x.name == canon.split("::")[-1] and "key" in x.canon]
-            f = fs[0] if len(fs) == 1 else None
-        if f is None:
-            run_.bad("P", canon.split("::")[-1], "Key constructor not found")
+    # ---- F / P: the FNV-1a primitives and the plumbing, as hand-written specifications in the vocabulary of the semantic summaries ------
+    keep = set(roles)                       # role functions stay calls; everything else local is analysed in place
+    inl = lambda f, ev: f.crate == "postcard_schema" and f.canon not in keep
+    mul = lambda x: "wrapping_mul(%s)" % ", ".join(sorted([x, str(PRIME)]))
+    L = lambda var, *iv: ["lin", var, [list(x) for x in iv]]
+
+    def fold_spec(src, state0, as_write):
+        """FNV-1a over the bytes of `src` in index order: state = (state ^ byte) * PRIME per byte (explored for 0, 1 and >= 2 bytes)"""
+        one = mul("BitXor(*%s[0], %s)" % (src, state0))
+        two = mul("BitXor(*%s[1], %s)" % (src, one))
+        ln = "len(%s)" % src
+        if as_write:
+            outs = [("- => ()", [[L(ln, (0, 0))]]), ("self.state := %s => ()" % one, [[L(ln, (1, 1))]]), ("self.state := %s => ()" % two, [[L(ln, (2, 2))]]),
+                    ("... [loop bound]", [[L(ln, (3, None))]])]
+        else:
+            outs = [("- => %s" % state0, [[L(ln, (0, 0))]]), ("- => %s" % one, [[L(ln, (1, 1))]]), ("- => %s" % two, [[L(ln, (2, 2))]]), ("... [loop bound]", [[L(ln, (3, None))]])]
+        return {"outcomes": [{"text": t, "when": w} for t, w in sorted(outs)], "vars": {ln: [[ln, "1", True]]}, "truncated": False}
+    upd, upds = by_role("update", False), by_role("update_str", False)
+    hasher_update = [f for f in sc.fns if "::key::hash::" in f.canon and f.name == "update" and f.impl_self]
+    sdm_c, sdm_o = by_role("sdm", False), by_role("sdm", True)
+    n_f = 0
+    if upd:
+        n_f += summ2.check(run_, "F", upd, fold_spec("arg2", "arg1", False), F, what="FNV-1a update (state ^ byte, then * prime, bytes in index order)", key="hash_update", inline=inl)
+    if upds:
+        # the str variant may either loop itself or hand its bytes to the byte variant
+        got = summ2.summarize(F, upds, inline=inl)
+        want_a = fold_spec("as_bytes(arg2)", "arg1", False)
+        txt = [o["text"] for o in got["outcomes"]]
+        via = upd is not None and len(txt) == 1 and txt[0] == "#1 = %s(arg1, as_bytes(arg2)) => #1" % upd.def_
+        okS = via or not summ2.compare(want_a, got)
+        run_.check(okS, "F", "hash_update_str", "a string must be hashed as exactly its UTF-8 bytes, in order", upds.where(), found=txt[:3])
+    for f in hasher_update[:1]:
+        summ2.check(run_, "F", f, fold_spec("arg2", "self.state", True), F, what="streaming hasher: state ^= byte, then *= prime, bytes in index order", key="Fnv1a64Hasher::update",
+                    inline=lambda f_, ev: f_.crate == "postcard_schema")
+    new = [f for f in sc.fns if "::key::hash::" in f.canon and f.name == "new" and f.impl_self]
+    for f in new[:1]:
+        got = [o["text"] for o in summ2.summarize(F, f)["outcomes"]]
+        run_.check(got == ["- => Fnv1a64Hasher{state: %d}" % BASIS], "F", "Fnv1a64Hasher::new", "wrong offset basis", f.where(), found=got)
+    # path hashing: all path bytes from the offset basis, then the schema; little-endian digest
+    paths = [f for f in sc.fns if "::key::hash::" in f.canon and f.locals[0]["ty"] == "[u8; 8]" and f.argc >= 1 and f.locals[1]["ty"].replace("'_ ", "") == "&str"
+             and "{" not in f.canon.split("::")[-1]]
+    for f in paths:
+        owned = f.argc == 2
+        sdm = sdm_o if owned else sdm_c
+        if not (upds and sdm):
             continue
-        ls = summ.lines(summ.summarize(F, f))
-        run_.check(len(ls) == 1 and ("#1 = " + want) in ls[0] and ls[0].endswith("=> Key(#1)"), "P", "Key::" + f.name,
-                   "Key constructor does not wrap exactly the hasher's digest", f.where(), found=ls)
+        subj = "arg2" if owned else "constref('postcard_schema::Schema::SCHEMA', T(), 'SCHEMA')"
+        # the str variant is the byte variant on as_bytes (rule hash_update_str above): analysed in place so that either spelling reads the same
+        inl2 = lambda f_, ev: f_.crate == "postcard_schema" and (f_.canon not in keep or f_.canon == upds.canon)
+        got = [o["text"] for o in summ2.summarize(F, f, inline=inl2)["outcomes"]]
+        want1 = "#1 = %s(%d, as_bytes(arg1)); #2 = %s(#1, %s) => %s" % (upd.def_ if upd else "?", BASIS, sdm.def_, subj, le8("#2"))
+        run_.check(len(got) == 1 and _same_call_text(got[0], want1), "F", "hash_ty_path" + ("_owned" if owned else ""),
+                   "key = FNV-1a(path bytes from the offset basis, then the schema stream), little-endian", f.where(), expected=[want1], found=got)
+    # Key constructors
+    for f in [x for x in sc.fns if x.name in ("for_path", "for_owned_schema_path") and "::key::" in x.canon and x.impl_self]:
+        got = [o["text"] for o in summ2.summarize(F, f, inline=lambda f_, ev: False)["outcomes"]]
+        tgt = [p for p in paths if (p.argc == 2) == (f.argc == 2)]
+        args = "arg1, arg2" if f.argc == 2 else "arg1"
+        okp = len(tgt) == 1 and got == ["#1 = %s(%s) => Key(#1)" % (tgt[0].def_, args)]
+        run_.check(okp, "P", "Key::" + f.name, "Key constructor does not wrap exactly the hasher's digest", f.where(), found=got)
     run_.floor("F", 6)
     run_.floor("P", 2)
     run_.explanation = (
-        "Both hashers' four recursive functions are explored on all paths (0,1,2 loop iterations). Per match arm the ordered stream of Tag(byte) / Name(field) / "
-        "Rec(role, field[i]) events, with the running state threaded through, is extracted and compared between the compile-time and the run-time copy keyed by "
-        "variant name (33 arms). The const copy's tags are compared with the published 33-byte table and its ordering discipline (tag first; variant name-tag-payload; "
-        "map key-then-value; field name-then-type; struct/enum type names unused). FNV-1a constants, update order, path hashing and Key constructors are compared with "
-        "their documented form.")
+        "Both hashers' four recursive functions (found by their signatures) are explored on all paths (0,1,2 loop iterations) with their private helpers "
+        "analysed in place. Per match arm the ordered stream of Tag(byte) / Name(field) / Rec(role, field[i]) events, with the running state threaded through, "
+        "is extracted and compared between the compile-time and the run-time copy keyed by variant name (33 arms). The const copy's tags are compared with the "
+        "published 33-byte table and its ordering discipline (tag first; variant name-tag-payload; map key-then-value; field name-then-type; struct/enum type "
+        "names unused). FNV-1a constants, update order, path hashing and Key constructors are compared with hand-written specifications.")
     run_.trusted += ["u64::wrapping_mul / str::as_bytes", "C15.F: the owned schema is a faithful conversion of the static one"]
+
+
+def _same_call_text(a, b):
+    import re
+    strip = lambda s: re.sub(r"::<[^>]*>", "", s)
+    return strip(a) == strip(b)
 
 
 def le8(x):
